@@ -24,8 +24,9 @@ type Taint struct {
 	Globals map[*ssa.Global]bool
 	// struct fields (by types.Var) tainted by stores
 	Fields map[*types.Var]bool
-	// free variables bound from tainted allocs
-	funcs []*ssa.Function
+	// NoArith: do not propagate through + (string concatenation / arithmetic)
+	NoArith bool
+	funcs   []*ssa.Function
 }
 
 func NewTaint(c *Ctx) *Taint {
@@ -102,6 +103,19 @@ func (t *Taint) Run(seeds ...ssa.Value) {
 						if t.Set[x.Tuple] {
 							mark(x)
 						}
+						// per-index precision for package callees with several results
+						if call, ok := x.Tuple.(*ssa.Call); ok {
+							if callee := t.c.staticPkgCallee(&call.Call); callee != nil && !t.Stop[callee] {
+								for _, cb := range callee.Blocks {
+									if ret, ok := cb.Instrs[len(cb.Instrs)-1].(*ssa.Return); ok && x.Index < len(ret.Results) {
+										res := ret.Results[x.Index]
+										if t.Set[res] || t.Set[resolveLocal(res)] {
+											mark(x)
+										}
+									}
+								}
+							}
+						}
 					case *ssa.Index:
 						if t.Set[x.X] {
 							mark(x)
@@ -126,7 +140,7 @@ func (t *Taint) Run(seeds ...ssa.Value) {
 							mark(x)
 						}
 					case *ssa.BinOp:
-						if x.Op == token.ADD && (t.Set[x.X] || t.Set[x.Y]) {
+						if !t.NoArith && x.Op == token.ADD && (t.Set[x.X] || t.Set[x.Y]) {
 							mark(x)
 						}
 					case *ssa.UnOp:
@@ -189,7 +203,10 @@ func (t *Taint) Run(seeds ...ssa.Value) {
 									mark(callee.Params[i])
 								}
 							}
-							// returns
+							// returns (single result; tuples are handled per index at the Extract)
+							if callee.Signature.Results().Len() != 1 {
+								continue
+							}
 							for _, cb := range callee.Blocks {
 								if ret, ok := cb.Instrs[len(cb.Instrs)-1].(*ssa.Return); ok {
 									for _, res := range ret.Results {
